@@ -5,3 +5,4 @@ import SpVerif.Proofs.Crc
 import SpVerif.Proofs.CrcResidue
 import SpVerif.Model.SpacePacket
 import SpVerif.Props.C01
+import SpVerif.Props.C14
